@@ -293,7 +293,7 @@ pub fn run(ctx: &mut Ctx) {
         "error message texts are never compared".into(),
     ];
     ctx.replay_regressions(check);
-    let n = ctx.tier.pick(8_000, 300_000);
+    let n = ctx.tier.pick(32_000, 300_000);
     ctx.run_proptest("inorder-groups", &NONE, n, inorder_group_history(), check);
     ctx.run_proptest("adversarial-histories", &NONE, n, adversarial_events(30).prop_map(|e| Input::History { lines: e.iter().map(render_ev).collect() }), check);
     ctx.run_proptest("single-sentences", &NONE, n, (wellformed_spec(), any::<bool>()).prop_map(|(s, d)| Input::History { lines: vec![Line::new(s.render(), d)] }), check);
